@@ -20,6 +20,8 @@ GROUPS = {
                 'ACB +/-', 'New ACB', 'New ACB/Share', 'Affiliate', 'rows', 'gain'},
     "sfl": {'sfl', 'notes', 'rows', 'gain'},
     "over": {'over', 'notes', 'rows'},
+    # the cost base and gain columns the conservation identity (C03) is read off
+    "acb": {'New ACB', 'ACB +/-', 'gain', 'rows'},
 }
 
 
